@@ -116,9 +116,15 @@ def cmp_dict(a, b, path='', unit=False):
     return None
 
 
-def fam_roundtrip(ctx, rng):
+def fam_roundtrip(ctx, rng, special=None):
     cls = rng.choice(Bd.ALL_CLASSES)
     o = make_full(rng, cls)
+    if special:
+        # arcs whose start / end angle is exactly 0.0 (the end of the documented range 0 <= a <= 2 pi)
+        cls, which = special
+        r_ = fp(rng.uniform(0.5, 20)); other = rng.uniform(0.5, 5.5)
+        a1, a2 = (other, 0.0) if which == 'a2' else (0.0, other)
+        o = Arc2D(Point2D(*full(G.rpt2(rng))), r_, a1, a2) if cls == 'Arc2D' else Arc3D(make_full(rng, 'Plane'), r_, a1, a2)
     d = o.to_dict()
     opt = tuple(sorted(k for k in d if k in ('plane', 'holes', 'interpolated', 'colors', 'edge_information', 'x')))
     desc = {'class': cls, 'dict': d}
@@ -245,13 +251,64 @@ def fam_integer_coordinates(ctx, rng, cls=None):
                       {'class': cls, 'a': a.to_dict(), 'b': b.to_dict()})
 
 
-FAMILIES = [(fam_roundtrip, 130), (fam_equality, 130), (fam_integer_coordinates, 22)]
+ZERO_CLASSES = ['Vector2D', 'Point2D', 'Vector3D', 'Point3D', 'Polygon2D', 'Polyline2D', 'Polyline3D', 'LineSegment2D', 'LineSegment3D', 'Ray2D',
+                'Ray3D', 'Mesh2D', 'Mesh3D', 'Polyface3D', 'Face3D', 'Arc3D', 'Plane', 'Sphere', 'Cylinder', 'Cone']
+
+
+def fam_signed_zero(ctx, rng, cls=None):
+    """0.0 == -0.0: two objects that differ only in the sign of a zero coordinate (as results of reverse / flip / reflect do) compare
+    equal, so they must hash equal"""
+    cls = cls or rng.choice(ZERO_CLASSES)
+    def build(c):
+        if cls == 'Vector2D': return Vector2D(3.0, c)
+        if cls == 'Point2D': return Point2D(c, 3.0)
+        if cls == 'Vector3D': return Vector3D(3.0, c, 1.0)
+        if cls == 'Point3D': return Point3D(3.0, 1.0, c)
+        if cls == 'Polygon2D': return Polygon2D([Point2D(c, 0), Point2D(4, c), Point2D(4, 3)])
+        if cls == 'Polyline2D': return Polyline2D([Point2D(c, 0), Point2D(4, c), Point2D(4, 3)])
+        if cls == 'Polyline3D': return Polyline3D([Point3D(0, 0, c), Point3D(4, c, 0), Point3D(4, 3, 0)])
+        if cls == 'LineSegment2D': return LineSegment2D(Point2D(c, 1), Vector2D(1, c))
+        if cls == 'LineSegment3D': return LineSegment3D(Point3D(c, 1, 0), Vector3D(1, 1, c))
+        if cls == 'Ray2D': return Ray2D(Point2D(c, 1), Vector2D(1, c))
+        if cls == 'Ray3D': return Ray3D(Point3D(c, 1, 0), Vector3D(1, 1, c))
+        if cls == 'Mesh2D': return Mesh2D([Point2D(c, 0), Point2D(4, c), Point2D(4, 3)], [(0, 1, 2)])
+        if cls == 'Mesh3D': return Mesh3D([Point3D(0, 0, c), Point3D(4, 0, c), Point3D(4, 3, 0)], [(0, 1, 2)])
+        if cls == 'Face3D': return Face3D([Point3D(0, 0, c), Point3D(4, 0, c), Point3D(4, 3, c)])
+        if cls == 'Arc3D': return Arc3D(Plane(Vector3D(0, 0, 1), Point3D(c, 1, c)), 1.0, 0.0, 1.0)
+        if cls == 'Plane': return Plane(Vector3D(c, 0, 1), Point3D(1, c, 2))
+        if cls == 'Sphere': return Sphere(Point3D(c, 1, 2), 2.0)
+        if cls == 'Cylinder': return Cylinder(Point3D(c, 1, 2), Vector3D(0, c, 2), 1.5)
+        if cls == 'Cone': return Cone(Point3D(c, 1, 2), Vector3D(0, c, 2), 0.5)
+        return Polyface3D([Point3D(0, 0, c), Point3D(4, 0, c), Point3D(4, 3, 0)], [[(0, 1, 2)]])
+    a, b = build(0.0), build(-0.0)
+    ctx.count('equality.signed_zero', key=cls, sample={'class': cls})
+    if (a == b) != (b == a):
+        ctx.violation('eq:%s:signed_zero:symmetric' % cls, 'a == b differs from b == a for objects differing in the sign of a zero', {'class': cls}); return
+    if a == b and hash(a) != hash(b):
+        ctx.violation('eq:%s:signed_zero:hash' % cls, 'objects that differ only in the sign of a zero coordinate compare equal but hash differently',
+                      {'class': cls, 'a': a.to_dict(), 'b': b.to_dict()}); return
+    # the same through operations that produce -0.0
+    if cls == 'Vector3D':
+        r, d = Vector3D(3.0, 0.0, 1.0).reverse(), Vector3D(-3.0, 0.0, -1.0)
+        if r == d and hash(r) != hash(d):
+            ctx.violation('eq:Vector3D:signed_zero:reverse', 'reverse() of a vector with a zero component equals the directly built vector but hashes differently', {'class': cls})
+    if cls == 'Plane':
+        r, d = Plane(Vector3D(0, 0, 1), Point3D(1, 2, 3)).flip(), Plane(Vector3D(0, 0, -1), Point3D(1, 2, 3), Vector3D(1, 0, 0))
+        if r == d and hash(r) != hash(d):
+            ctx.violation('eq:Plane:signed_zero:flip', 'flip() of a horizontal plane equals the directly built plane but hashes differently', {'class': cls})
+
+
+FAMILIES = [(fam_roundtrip, 130), (fam_equality, 130), (fam_integer_coordinates, 22), (fam_signed_zero, 20)]
 
 
 def explore(ctx):
     for cls in ('Polygon2D', 'Polyline2D', 'Polyline3D', 'LineSegment2D', 'LineSegment3D', 'Ray2D', 'Ray3D', 'Mesh2D', 'Mesh3D', 'Polyface3D',
                 'Face3D', 'Arc3D'):
         fam_integer_coordinates(ctx, ctx.rng, cls)       # the hash-collision probe, every class on every run
+    for cls in ZERO_CLASSES:
+        fam_signed_zero(ctx, ctx.rng, cls)               # the signed-zero probe, every class on every run
+    for sp in (('Arc2D', 'a1'), ('Arc2D', 'a2'), ('Arc3D', 'a1'), ('Arc3D', 'a2')):
+        fam_roundtrip(ctx, ctx.rng, sp)                  # arcs starting / ending exactly at angle 0, every run
     for fn, n in FAMILIES:
         for _ in range(ctx.n(n, n * 10)):
             fn(ctx, ctx.rng)
